@@ -7,8 +7,9 @@
 set -u
 id=$1; v=$2; shift 2
 checks=${*:-$id}
-src=/tmp/seed/$id/out/$v
-name=${id}${v}
+# SEED_OUT=out2 selects the second (adversarial) round: deliverables under /tmp/seed/<ID>/out2, names <ID><v>2
+src=/tmp/seed/$id/${SEED_OUT:-out}/$v
+name=${id}${v}$([ "${SEED_OUT:-out}" = out ] || echo 2)
 root=/tmp/sv/$name
 [ -f $src/patch.diff ] && [ -f $src/demo.rs ] && [ -f $src/meta.json ] || { echo "$name MISSING-DELIVERABLES"; exit 2; }
 rm -rf $root; mkdir -p $root
@@ -43,6 +44,9 @@ if [ "$verdict" = confirmed ]; then
 import json,sys
 m=json.load(open(sys.argv[1]))
 m['seed_id']=sys.argv[3]
+m['round']=2 if sys.argv[3].endswith('2') else 1
+if m['round']==2: m['round_note']='second round: the sub-agent was additionally told that the tool enumerates small scopes exhaustively and was asked for defects likely to escape small-scope enumeration'
+else: m['round_note']='first round: the sub-agent was given only the text of the property and a scratch worktree' 
 m['confirmed']={'demo_on_clean_tree':'passes','demo_with_patch':'fails','repository_suite_with_patch':'passes (cargo test --workspace --no-fail-fast --offline)','how':'tools/seedcheck.sh in a scratch worktree of /repo'}
 m['checks_run']=sys.argv[4].split()
 m['check_results']=[l for l in sys.argv[5].splitlines() if l.strip()]
